@@ -6,6 +6,19 @@ VERIF = os.path.dirname(HERE)
 ALL = ["C%02d" % i for i in range(1, 19)]
 
 CLAIMS = {
+    "C03": dict(
+        text=("Rocq proof relating the model of the generated SQL (LIKE with/without ESCAPE, casts, NOT IN, OR/AND "
+              "composition, evaluated over the raw index rows as SQLite does) to the meaning the property gives, atom by "
+              "atom, for atoms free of LIKE metacharacters: quoted text is smart-case literal containment on both code "
+              "paths (LIKE '%lit%' = case-insensitive containment, by induction on the pattern), f= is a *-glob, a negated "
+              "comparison keeps the existence requirement (flipped operator = negation, total string order), existence "
+              "filters are exact complements, ranges are inclusive; the unclean atoms are REFUTED by witnesses (7 known "
+              "findings). Tied to the code by comparing repo.get_notes_by_query with the model on indexes built by the real "
+              "`db create` (read back from the raw SQLite rows) over generated filters, plus a three-valued spec check."),
+        note=("SQLite/SQLAlchemy are modelled, not verified; date() on exotic values is OutOfModel (counted). The filter "
+              "structure comes from the real query compiler (C04)."),
+        technique="Rocq proof (LIKE/containment, glob, comparison-flip lemmas; refutation witnesses) + SQL-semantics correspondence on raw index rows + three-valued spec check",
+        design="§5 C03"),
     "C04": dict(
         text=("Rocq proof over a model of ZorgQueryCompiler that runs on any parse tree of the query grammar: Pn / Pn-m "
               "denote exactly the priorities n..m for all 64 spellings, relative dates Nd/Nm/Ny (and the past form) equal "
